@@ -453,6 +453,7 @@ func (f *STFS) OpenFile(name string, flag int, perm os.FileMode) (afero.File, er
 		}
 	}
 
+	created := false
 	hdr, err := inventory.Stat(
 		f.metadata,
 
@@ -473,7 +474,7 @@ func (f *STFS) OpenFile(name string, flag int, perm os.FileMode) (afero.File, er
 			)
 
 			createFile := func() error {
-				if !f.readOnly && flag&os.O_CREATE != 0 && flag&os.O_EXCL == 0 {
+				if !f.readOnly && flag&os.O_CREATE != 0 {
 					if parent, err := inventory.Stat(
 						f.metadata,
 
@@ -507,6 +508,8 @@ func (f *STFS) OpenFile(name string, flag int, perm os.FileMode) (afero.File, er
 					if err := f.mknodeWithoutLocking(false, name, perm, false, "", false); err != nil {
 						return err
 					}
+
+					created = true
 
 					hdr, err = inventory.Stat(
 						f.metadata,
@@ -576,6 +579,11 @@ func (f *STFS) OpenFile(name string, flag int, perm os.FileMode) (afero.File, er
 		} else {
 			return nil, err
 		}
+	}
+
+	// With O_EXCL the file must have been created by this call
+	if !created && !f.readOnly && flag&os.O_CREATE != 0 && flag&os.O_EXCL != 0 {
+		return nil, os.ErrExist
 	}
 
 	// Prevent opening a directory as writable
